@@ -10,5 +10,6 @@ CONSTANTS
   GrowUntil = 0
   ShrinkFrom = 1000000
   EmitDepth = 100
+  FanFrom = 100
 INVARIANTS EmitWalk
 CHECK_DEADLOCK FALSE
